@@ -7,13 +7,16 @@ pub mod util;
 
 pub mod bfs;
 pub mod fe;
+pub mod inst;
 pub mod modes;
 pub mod seekm;
 
 pub mod c01;
 pub mod c02;
 pub mod c03;
+pub mod c04;
 pub mod c05;
+pub mod c06;
 pub mod c07;
 pub mod c08;
 pub mod c09;
@@ -22,6 +25,9 @@ pub mod c11;
 pub mod c12;
 pub mod c13;
 pub mod c14;
+pub mod c15;
+pub mod c16;
+pub mod c17;
 
 use base::api::Registry;
 use base::json::{J, obj};
@@ -31,7 +37,7 @@ use std::time::Instant;
 type CheckFn = fn(&Ctx) -> Outcome;
 
 fn checks() -> Vec<(&'static str, CheckFn)> {
-    vec![("C01", c01::run as CheckFn), ("C02", c02::run as CheckFn), ("C03", c03::run as CheckFn), ("C05", c05::run as CheckFn), ("C07", c07::run as CheckFn), ("C08", c08::run as CheckFn), ("C09", c09::run as CheckFn), ("C10", c10::run as CheckFn), ("C11", c11::run as CheckFn), ("C12", c12::run as CheckFn), ("C13", c13::run as CheckFn), ("C14", c14::run as CheckFn)]
+    vec![("C01", c01::run as CheckFn), ("C02", c02::run as CheckFn), ("C03", c03::run as CheckFn), ("C04", c04::run as CheckFn), ("C05", c05::run as CheckFn), ("C06", c06::run as CheckFn), ("C07", c07::run as CheckFn), ("C08", c08::run as CheckFn), ("C09", c09::run as CheckFn), ("C10", c10::run as CheckFn), ("C11", c11::run as CheckFn), ("C12", c12::run as CheckFn), ("C13", c13::run as CheckFn), ("C14", c14::run as CheckFn), ("C15", c15::run as CheckFn), ("C16", c16::run as CheckFn), ("C17", c17::run as CheckFn)]
 }
 
 struct Args {
